@@ -28,6 +28,7 @@ static inline void %(s)s_push_back(%(s)s *v, char *x) { __CPROVER_assert(v->n < 
 static inline char *%(s)s_at(%(s)s *v, unsigned long i) { if (i >= v->n) { __verif_exc = %(OOR)s; return v->b; } return v->b + i; }
 static inline void %(s)s_resize(%(s)s *v, unsigned long n) { unsigned long i; __CPROVER_assert(n <= %(CAP)d, "BOUND string longer than the bounded model's capacity"); for (i = v->n; i < n; i++) v->b[i] = 0; v->n = n; }
 static unsigned long %(s)s_find_last_of_c(%(s)s *v, char c) { unsigned long i = v->n; while (i > 0) { --i; if (v->b[i] == c) return i; } return (unsigned long)-1; }
+static unsigned long %(s)s_find_last_of_c_pos(%(s)s *v, char c, unsigned long pos) { unsigned long i = (v->n == 0) ? 0 : (pos < v->n - 1 ? pos + 1 : v->n); while (i > 0) { --i; if (v->b[i] == c) return i; } return (unsigned long)-1; }
 static unsigned long %(s)s_find_c(%(s)s *v, char c, unsigned long pos) { unsigned long i; for (i = pos; i < v->n; i++) if (v->b[i] == c) return i; return (unsigned long)-1; }
 static unsigned long %(s)s_find_buf(%(s)s *v, const char *p, unsigned long m, unsigned long pos)
 {
@@ -820,6 +821,9 @@ static inline void verif_lock_guard_dtor(std_lock_guard_std_mutex *g) { g->m->g_
                 real = [a for a in args if a.get("kind") != "CXXDefaultArgExpr"]
                 if m == "find_last_of" and len(real) == 1 and tr.ety(real[0]).noref().kind == "builtin":
                     return X("call", s + "_find_last_of_c", [addr(o), tr.rv(real[0])], ty=UL)
+                if m == "find_last_of" and len(real) == 2 and tr.ety(real[0]).noref().kind == "builtin":
+                    # find_last_of(c, pos): the last occurrence at an index <= pos (pos == npos: the whole string)
+                    return X("call", s + "_find_last_of_c_pos", [addr(o), tr.rv(real[0]), tr.rv(real[1])], ty=UL)
                 if m == "find" and len(real) >= 1:
                     t0 = tr.ety(real[0]).noref()
                     pos = tr.rv(real[1]) if len(real) > 1 else X("lit", "0ul")
@@ -1069,6 +1073,17 @@ static %(sn)s *verif_getline_%(sn)s(%(sn)s *ss, %(s)s *item, char delim)
             pv = X("var", "__mp", ty=rt)
             return X("sexpr", [X("decl", rt, "__mp", None), X("expr", X("assign", "=", X("mem", pv, "first"), tr.rv(args[0]))),
                                X("expr", X("assign", "=", X("mem", pv, "second"), tr.rv(args[1])))], pv, ty=rt)
+        if base == "swap" and len(args) == 2:
+            pt = parse_type(ps[0])
+            t = pt.to if pt.kind == "ref" else pt
+            triv = t.kind == "builtin" or t.kind == "ptr" or (t.kind == "rec" and ((t.name in tr.ast.Rname and "trivcopy" in tr.ast.R[tr.ast.Rname[t.name]]) or t.name.startswith("std::array<")))
+            if triv:
+                # std::swap of trivially copyable objects: three plain copies through a temporary
+                tr.rule("std::swap model (trivially copyable)")
+                pa, pb = tr.newtmp(Ty("ptr", to=t)), tr.newtmp(Ty("ptr", to=t))
+                tv = tr.newtmp(t)
+                return X("comma", X("comma", X("comma", X("assign", "=", pa, tr.bind_ref(args[0])), X("assign", "=", pb, tr.bind_ref(args[1]))),
+                                    X("comma", X("assign", "=", tv, deref(pa)), X("assign", "=", deref(pa), deref(pb)))), X("assign", "=", deref(pb), tv), ty=parse_type("void"))
         if base == "distance" and len(args) == 2:
             pt = parse_type(ps[0])
             if pt.kind == "ptr":
